@@ -143,6 +143,7 @@ package isaac
 //@   fnparam lastBlockMap ensures r2 == nil && r1 ==> r0 != nil
 //@   fnparam lastBlockMap ensures p.Logging != nil && p.pool != nil && p.local != nil && p.getOperations != nil
 //@   fnparam getOperations ensures p.Logging != nil && p.pool != nil && p.local != nil
+//@   fnparam getOperations requires locked(p.l)
 //@   callsite ProposalByPoint requires locked(p.l) && a0 == point && a1 == p.local.Address() && a2 == previousBlock
 //@   callsite SetProposal requires locked(p.l) && pbpfound == 0
 //@   ensures r1 == nil ==> r0 != nil
@@ -153,6 +154,7 @@ package isaac
 //@   fnparam lastBlockMap ensures r2 == nil && r1 ==> r0 != nil
 //@   fnparam lastBlockMap ensures p.Logging != nil && p.pool != nil && p.local != nil && p.getOperations != nil
 //@   fnparam getOperations ensures p.Logging != nil && p.pool != nil && p.local != nil
+//@   fnparam getOperations requires locked(p.l)
 //@   callsite ProposalByPoint requires locked(p.l) && a0 == point && a1 == p.local.Address() && a2 == previousBlock
 //@   callsite SetProposal requires locked(p.l) && pbpfound == 0
 //@   ensures r1 == nil ==> r0 != nil
